@@ -26,6 +26,22 @@ CTX_BIG = ("alone", "outer-xb", "inner-mirror")
 BVALS = [200, 201]
 
 
+VIOL_CAP = 40
+
+
+def record(part, sig, case, text):
+    """count every violating case; keep at most VIOL_CAP case records per (signature, seam) and chunk of work (a single
+    defect poisons millions of cases at the thorough tier; every signature still gets recorded instances)"""
+    part.coverage["violating_cases"] = part.coverage.get("violating_cases", 0) + 1
+    seen = part.__dict__.setdefault("_per_sig", {})
+    k = (sig, case.get("seam") or case.get("ctx"))
+    seen[k] = seen.get(k, 0) + 1
+    if seen[k] <= VIOL_CAP:
+        part.violation(sig, case, text)
+    else:
+        part.coverage["violating_cases_not_recorded"] = part.coverage.get("violating_cases_not_recorded", 0) + 1
+
+
 # ------------------------------------------------------------------ alphabet -----------------------
 @functools.lru_cache(maxsize=None)
 def structs(d, m):
@@ -163,14 +179,14 @@ def judge(part, case, got, err, seam):
             part.coverage["rejected_nd_with_flat_pairing"] = part.coverage.get("rejected_nd_with_flat_pairing", 0) + 1
             return
         sig = classify(case, None, err)
-        part.violation(sig or "valid-nested-split-rejected", cd,
+        record(part, sig or "valid-nested-split-rejected", cd,
                        f"{type(err).__name__}: {err}; expected jobs over {exp}")
         return
     if got != exp:
         sig = classify(case, got, None)
         lost = [e for e in exp if e not in got]
         dup = [g for g in got if got.count(g) > 1]
-        part.violation(sig, cd, f"jobs received {got}; expected {exp} (missing {lost}, duplicated {dup})")
+        record(part, sig, cd, f"jobs received {got}; expected {exp} (missing {lost}, duplicated {dup})")
 
 
 # ------------------------------------------------------------------ seams --------------------------
@@ -234,7 +250,7 @@ def run_case(part, seam, case, root=None):
             got = [cand.get(o, ("?", o)) for o in out]
             judge(part, case, got, None, "api")
         elif set(log) != set(rexp):  # identical elements (e.g. two empty inner lists) may share one cached execution
-            part.violation("executions-differ-from-outputs", dict(case, seam="api"),
+            record(part, "executions-differ-from-outputs", dict(case, seam="api"),
                            f"outputs are right but executed={log} expected={rexp}")
     else:
         judge(part, case, None, err, "api")
